@@ -39,6 +39,9 @@ type c08Scenario struct {
 	// AuditMetrics: the daemon runs with -audit-metrics (one more errgroup
 	// member: a ticker that stats the audit log), interval 20 ms.
 	AuditMetrics bool
+	// OutputMissing: the events output path does not exist (yet) when the daemon
+	// starts; it waits for it before starting any worker. Signals only.
+	OutputMissing bool
 }
 
 var c08Causes = []string{
@@ -159,6 +162,10 @@ func c08Run(r *vlib.Run, sc c08Scenario, idx int) (evaluated bool) {
 	}
 	scratch, _ := os.MkdirTemp("", "verif-c08-")
 	defer os.RemoveAll(scratch)
+	if sc.OutputMissing {
+		o.outPath = filepath.Join(scratch, "events-output-not-there-yet.log")
+		label += "/output-missing"
+	}
 	switch sc.Cause {
 	case "write-failure-on-sshd-line":
 		o.outPath = "/dev/full"
@@ -200,6 +207,9 @@ func c08Run(r *vlib.Run, sc c08Scenario, idx int) (evaluated bool) {
 	if sc.AuditMetrics {
 		sig += ":with-audit-metrics"
 	}
+	if sc.OutputMissing {
+		sig += ":output-file-missing"
+	}
 	misconfigured := strings.Contains(sc.Cause, "-path-")
 	var ws, wa *os.File
 	var pm *pump
@@ -214,7 +224,9 @@ func c08Run(r *vlib.Run, sc c08Scenario, idx int) (evaluated bool) {
 	}
 	needS := strings.HasPrefix(sc.Cause, "sshd-pipe-eof") || sc.Cause == "write-failure-on-sshd-line"
 	needA := strings.HasPrefix(sc.Cause, "audit-pipe-eof") || sc.Cause == "malformed-audit-line"
-	if !strings.HasPrefix(sc.Cause, "sshd-path") && (!sc.NoWriter || needS) {
+	if sc.OutputMissing {
+		// no worker is started before the output file exists: nobody will open the pipes
+	} else if !strings.HasPrefix(sc.Cause, "sshd-path") && (!sc.NoWriter || needS) {
 		ws = openHealthy(d.sshdPath)
 	}
 	if sc.NoWriter {
@@ -222,7 +234,7 @@ func c08Run(r *vlib.Run, sc c08Scenario, idx int) (evaluated bool) {
 		// the verdict does not depend on it)
 		time.Sleep(150 * time.Millisecond)
 	}
-	if !strings.HasPrefix(sc.Cause, "audit-path") && (!sc.NoWriter || needA) {
+	if !sc.OutputMissing && !strings.HasPrefix(sc.Cause, "audit-path") && (!sc.NoWriter || needA) {
 		if sc.Saturated {
 			ses, pid := "", 0
 			if o.outPath == "" && ws != nil {
@@ -478,6 +490,9 @@ func checkC08(r *vlib.Run) int {
 		scs = append(scs, c08Scenario{Cause: c, AuditMetrics: true})
 	}
 	scs = append(scs, c08Scenario{Cause: "malformed-audit-line", HTTP: true, AuditMetrics: true}, c08Scenario{Cause: "SIGTERM", HTTP: true, AuditMetrics: true})
+	for _, c := range []string{"SIGTERM", "SIGINT"} {
+		scs = append(scs, c08Scenario{Cause: c, OutputMissing: true}, c08Scenario{Cause: c, OutputMissing: true, Debug: true})
+	}
 	var idle, sat []int
 	for i, s := range scs {
 		if s.Saturated || s.HTTP {
@@ -494,7 +509,7 @@ func checkC08(r *vlib.Run) int {
 	for i, ok := range done {
 		if ok {
 			evals++
-			dist.Add(fmt.Sprintf("%s|%v|%v|%v|%v|%v", scs[i].Cause, scs[i].Saturated, scs[i].NoWriter, scs[i].Debug, scs[i].HTTP, scs[i].StuckScraper) + fmt.Sprint(scs[i].AuditMetrics))
+			dist.Add(fmt.Sprintf("%s|%v|%v|%v|%v|%v", scs[i].Cause, scs[i].Saturated, scs[i].NoWriter, scs[i].Debug, scs[i].HTTP, scs[i].StuckScraper) + fmt.Sprint(scs[i].AuditMetrics, scs[i].OutputMissing))
 		}
 	}
 	r.Set("causes", c08Causes)
@@ -503,7 +518,7 @@ func checkC08(r *vlib.Run) int {
 	r.Assumptions = []string{"'saturated' is observed: the pumping writer's write(2) hit EAGAIN at least five times and the number of lines in flight between pipe and output stopped growing (or passed 10000) before the fault is injected, otherwise the scenario is inconclusive",
 		"'does not exit' is a violation only if the SIGQUIT dump shows main parked in errgroup.Wait and a worker parked; otherwise inconclusive",
 		"signals may end the process with any status; failures must give a non-zero status"}
-	return r.Finish(evals, dist.Len(), "built daemon x failure cause {sshd pipe EOF, audit pipe EOF, either pipe's EOF in the middle of a record, malformed audit line, event write failure via /dev/full, sshd/audit path is a regular file / missing / a directory, SIGTERM, SIGINT} x load {idle with writers attached, idle with the other pipe still waiting for its writer, saturated by a pumping writer} x log level {error, debug}, six causes with the HTTP health/metrics server enabled and three of them with a scrape client that never reads its answers, every cause with -audit-metrics (ticker member of the worker group, 20 ms); thorough: x3 and with the -race build; distinct = (cause, load) pairs evaluated")
+	return r.Finish(evals, dist.Len(), "built daemon x failure cause {sshd pipe EOF, audit pipe EOF, either pipe's EOF in the middle of a record, malformed audit line, event write failure via /dev/full, sshd/audit path is a regular file / missing / a directory, SIGTERM, SIGINT} x load {idle with writers attached, idle with the other pipe still waiting for its writer, saturated by a pumping writer} x log level {error, debug}, six causes with the HTTP health/metrics server enabled and three of them with a scrape client that never reads its answers, every cause with -audit-metrics (ticker member of the worker group, 20 ms), both signals while the daemon still waits for its events output file to appear; thorough: x3 and with the -race build; distinct = (cause, load) pairs evaluated")
 }
 
 func lastLineOf(s string) string {
